@@ -116,6 +116,8 @@ pub fn build_live(family: &str, rng: &mut Rng, tier: u32) -> Option<LiveBuilt> {
         "scope" => Some(live_scope::build(rng, tier)),
         "panic" => Some(live_panic::build(rng, tier, false)),
         "panicscope" => Some(live_panic::build(rng, tier, true)),
+        "paniccq" => Some(live_panic::build_cq(rng, tier)),
+        "panicrw" => Some(live_panic::build_rw(rng, tier)),
         _ => None,
     }
 }
